@@ -195,9 +195,15 @@ func main() {
 // on either representation is a verdict about the same behaviour; the second one only removes the dependence
 // of the path rules on how functions happen to be split up.
 func runProp(p *Program, id, tier string) (r *Result) {
+	if os.Getenv("VERIF_FORCEVIEWS") != "" {
+		p.setViews(true)
+		rb := runPropOnce(p, id, tier)
+		p.setViews(false)
+		return rb
+	}
 	p.setViews(false)
 	ra := runPropOnce(p, id, tier)
-	if len(violKeys(ra)) == 0 || os.Getenv("VERIF_NOVIEWS") != "" {
+	if len(violKeys(ra)) == 0 || os.Getenv("VERIF_NOVIEWS") != "" || noViewProps[id] {
 		return ra
 	}
 	p.setViews(true)
@@ -214,6 +220,10 @@ func runProp(p *Program, id, tier string) (r *Result) {
 	ra.Notes = append(ra.Notes, fmt.Sprintf("also evaluated on inlined views: %d obligation(s) not discharged there", len(violKeys(rb))))
 	return ra
 }
+
+// noViewProps: properties whose rules are whole-program dataflow analyses over the call graph of the code as
+// written; they do not depend on how functions are split up and are not re-evaluated on views.
+var noViewProps = map[string]bool{"C18": true}
 
 func runPropOnce(p *Program, id, tier string) (r *Result) {
 	defer func() {
